@@ -98,7 +98,8 @@ PrintQ(q) ==
 
 
 ----------------------------------------------------------------------------
-(* C08: the meaning of SELECT queries (result types ANNOTATION and DATA).    *)
+(* C08: the meaning of SELECT queries (result types ANNOTATION, DATA, TEXT   *)
+(* and RESOURCE).                                                            *)
 (* An item is [t, a, b, c]: "ann" a; "data" a = set, b = data; "text"        *)
 (* a = resource, b, c = range; "res" a; "none".  A row is a sequence of      *)
 (* items, one per query level.  Constraints that name identifiers which do   *)
@@ -111,11 +112,18 @@ DataItem(s, d) == Item("data", s, d, 0)
 EnvGet(env, name) == IF \E i \in DOMAIN env : env[i][1] = name THEN env[CHOOSE i \in DOMAIN env : env[i][1] = name][2] ELSE NoneItem
 
 \* the documented comparison semantics for the value pool (val: a data value, (op, v): the operator)
+\* strings of the pool that read as numbers / as "yes" (numeric/string cross-type comparison): float values are kept doubled
+StrAsInt(s) == CASE s = "1" -> <<TRUE, 1>> [] s = "-7" -> <<TRUE, -7>> [] OTHER -> <<FALSE, 0>>
+StrAsFloat2(s) == CASE s = "1" -> <<TRUE, 2>> [] s = "-7" -> <<TRUE, -14>> [] s = "1.5" -> <<TRUE, 3>> [] OTHER -> <<FALSE, 0>>
+IsYesWord(s) == s \in {"yes", "1"}
 TestEq(val, v) ==
     CASE v.t = "any" -> TRUE
       [] v.t = "null" -> val.t = "null"
       [] v.t = "bool" -> val.t = "bool" /\ val.n = v.n
-      [] v.t = "str" -> (val.t = "str" /\ val.s = v.s) \/ (val.t = "bool" /\ val.n = 0)   \* false equals any string that is not a "yes" word
+      [] v.t = "str" -> \/ (val.t = "str" /\ val.s = v.s)
+                        \/ (val.t = "bool" /\ (val.n = 1 <=> IsYesWord(v.s)))     \* true equals the "yes" words, false everything else
+                        \/ (val.t = "int" /\ StrAsInt(v.s)[1] /\ StrAsInt(v.s)[2] = val.n)
+                        \/ (val.t = "float" /\ StrAsFloat2(v.s)[1] /\ StrAsFloat2(v.s)[2] = val.n)
       [] v.t = "int" -> val.t = "int" /\ val.n = v.n
       [] v.t = "float" -> val.t = "float" /\ val.n = v.n
       [] v.t = "datetime" -> val.t = "datetime" /\ val.n = v.n
@@ -127,6 +135,11 @@ TestValue(val, op, v) ==
       [] op = ">=" -> val.t = v.t /\ v.t \in {"int", "float", "datetime"} /\ val.n >= v.n
       [] op = "<" -> val.t = v.t /\ v.t \in {"int", "float", "datetime"} /\ val.n < v.n
       [] op = "<=" -> val.t = v.t /\ v.t \in {"int", "float", "datetime"} /\ val.n <= v.n
+      \* disjunction of equalities, conjunction of two bounds (both over the elements of a list value), list membership
+      [] op = "or" -> \E i \in DOMAIN v.l : TestEq(val, v.l[i])
+      [] op = "!or" -> ~\E i \in DOMAIN v.l : TestEq(val, v.l[i])
+      [] op = "and" -> val.t = "int" /\ val.n > v.l[1].n /\ val.n < v.l[2].n
+      [] op = "has" -> val.t = "list" /\ \E i \in DOMAIN val.l : TestEq(val.l[i], v)
       [] OTHER -> FALSE
 
 DataValOf(st, p) == st.sets[p[1]].data[p[2]].val
@@ -229,15 +242,61 @@ FindDataExpected(st, a) ==
        ELSE {p \in LiveData(st) : (s = 0 \/ p[1] = s) /\ (k = 0 \/ DataKeyOf(st, p) = k) /\ TestValue(DataValOf(st, p), a.op, a.v)}
 FindDataOK(st, r) == r.outcome = "ok" /\ NoDup(r.api.items) /\ Range(r.api.items) = FindDataExpected(st, r.a)
 
-ItemsOf(rt, S) == IF rt = "ANNOTATION" THEN {AnnItem(x) : x \in S} ELSE {DataItem(p[1], p[2]) : p \in S}
-AllOf(st, rt) == IF rt = "ANNOTATION" THEN LiveAnns(st) ELSE LiveData(st)
+\* text selections (<<res, b, e>>) satisfying one constraint of a TEXT query.  The universe of a TEXT query is the
+\* selections that live annotations select; a TEXT "needle" constraint (alone) instead denotes the matches of the search
+AnnotatedSels(st) == UNION {Range(AnnText(st, x)) : x \in LiveAnns(st)}
+SelsWithData(st, P(_)) == {t \in AnnotatedSels(st) : \E x \in AnnsOnRange(st, t[1], t[2], t[3]) : \E p \in AnnData(st, x) : P(p)}
+SatText(st, env, c) ==
+    LET s == ResolveSet(st, ById(c.a))
+        k == IF s = 0 THEN 0 ELSE ResolveKey(st.sets[s], ById(c.b))
+        it == EnvGet(env, c.a)
+    IN CASE c.k = "Res" -> LET r == ResolveRes(st, ById(c.a)) IN IF r = 0 \/ c.q THEN QFail ELSE QOk({t \in AnnotatedSels(st) : t[1] = r})
+         [] c.k = "Ann" -> LET y == ResolveAnn(st, ById(c.a)) IN IF y = 0 \/ c.q \/ c.rec THEN QFail ELSE QOk(Range(AnnText(st, y)))
+         [] c.k = "Key" -> IF k = 0 \/ c.q THEN QFail ELSE QOk(SelsWithData(st, LAMBDA p : p[1] = s /\ DataKeyOf(st, p) = k))
+         [] c.k = "KeyVal" -> IF k = 0 \/ c.q THEN QFail
+                              ELSE QOk(SelsWithData(st, LAMBDA p : p[1] = s /\ DataKeyOf(st, p) = k /\ TestValue(DataValOf(st, p), c.op, c.v)))
+         [] c.k = "Value" -> QOk(SelsWithData(st, LAMBDA p : TestValue(DataValOf(st, p), c.op, c.v)))
+         [] c.k = "Text" -> LET codes == [i \in DOMAIN c.v.l |-> c.v.l[i].n]
+                                hits(r) == IF c.b = "nocase" THEN FindAllNoCase(st.res[r].text, 0, Len(st.res[r].text), codes)
+                                           ELSE FindAll(st.res[r].text, 0, Len(st.res[r].text), codes)
+                            IN QOk(UNION {{<<r, hits(r)[i][1], hits(r)[i][2]>> : i \in DOMAIN hits(r)} : r \in LiveRes(st)})
+         [] c.k = "AnnVar" -> IF it.t # "ann" \/ c.q \/ c.rec THEN QFail ELSE QOk(Range(AnnText(st, it.a)))
+         [] c.k = "ResVar" -> IF it.t # "res" \/ c.q THEN QFail ELSE QOk({t \in AnnotatedSels(st) : t[1] = it.a})
+         [] c.k = "DataVar" -> IF it.t # "data" \/ c.q THEN QFail ELSE QOk(SelsWithData(st, LAMBDA p : p = <<it.a, it.b>>))
+         [] c.k = "Relation" -> IF it.t \notin {"text", "ann"} THEN QFail ELSE QOk(RelatedOfItem(st, it, c.b))
+         [] OTHER -> QFail
+
+\* resources satisfying one constraint of a RESOURCE query (normal: through the text annotations select; AS METADATA:
+\* as the target of a ResourceSelector)
+ResOfAnns(st, X, meta) ==
+    IF meta THEN {l.a : l \in UNION {{m \in Range(st.anns[x].leaves) : m.k = "Res"} : x \in X}}
+    \* (annotation.resources() follows annotation selectors down to the text they select; the documentation only says
+    \*  "targeted via a TextSelector", so the recursion is taken over from the code)
+    ELSE UNION {{t[1] : t \in Range(AnnText(st, y))} : y \in X \cup TargetsRec(st, X, {})}
+SatRes(st, env, c) ==
+    LET s == ResolveSet(st, ById(c.a))
+        k == IF s = 0 THEN 0 ELSE ResolveKey(st.sets[s], ById(c.b))
+    IN CASE c.k \in {"Id", "Res"} -> LET r == ResolveRes(st, ById(c.a)) IN IF r = 0 THEN QFail ELSE QOk({r})
+         [] c.k = "Key" -> IF k = 0 THEN QFail ELSE QOk(ResOfAnns(st, Range(AnnsUsingKey(st, s, k)), c.q))
+         [] c.k = "KeyVal" -> IF k = 0 THEN QFail
+                              ELSE QOk(ResOfAnns(st, {x \in LiveAnns(st) : \E p \in AnnData(st, x) : p[1] = s /\ DataKeyOf(st, p) = k /\ TestValue(DataValOf(st, p), c.op, c.v)}, c.q))
+         [] OTHER -> QFail
+
+ItemsOf(rt, S) == CASE rt = "ANNOTATION" -> {AnnItem(x) : x \in S}
+                    [] rt = "DATA" -> {DataItem(p[1], p[2]) : p \in S}
+                    [] rt = "TEXT" -> {Item("text", t[1], t[2], t[3]) : t \in S}
+                    [] OTHER -> {Item("res", r, 0, 0) : r \in S}
+AllOf(st, rt) == CASE rt = "ANNOTATION" -> LiveAnns(st) [] rt = "DATA" -> LiveData(st) [] rt = "TEXT" -> AnnotatedSels(st) [] OTHER -> LiveRes(st)
+SatOf(st, env, rt, c) == CASE rt = "ANNOTATION" -> SatAnn(st, env, c) [] rt = "DATA" -> SatData(st, env, c)
+                           [] rt = "TEXT" -> SatText(st, env, c) [] OTHER -> SatRes(st, env, c)
 
 \* items of one query level (LIMIT constraints are not part of the meaning: see QueryOK)
 LevelItems(st, env, q) ==
     LET cs == SelectSeq(q.cs, LAMBDA c : c.k # "Limit")
-        rs == [i \in DOMAIN cs |-> IF q.rt = "ANNOTATION" THEN SatAnn(st, env, cs[i]) ELSE SatData(st, env, cs[i])]
+        rs == [i \in DOMAIN cs |-> SatOf(st, env, q.rt, cs[i])]
     IN IF \E i \in DOMAIN rs : ~rs[i].ok THEN QFail
-       ELSE QOk(ItemsOf(q.rt, {x \in AllOf(st, q.rt) : \A i \in DOMAIN rs : x \in rs[i].S}))
+       ELSE IF cs = <<>> THEN QOk(ItemsOf(q.rt, AllOf(st, q.rt)))
+       ELSE QOk(ItemsOf(q.rt, {x \in UNION {rs[i].S : i \in DOMAIN rs} : \A i \in DOMAIN rs : x \in rs[i].S}))
 
 \* rows of a query with at most one sub-query per level, nested iteration: [ok, rows (a set of sequences of items)]
 RECURSIVE EvalQ(_, _, _)
